@@ -1,9 +1,9 @@
 (* C11 -- only the documented extent of caller buffers is read or written.
    Property theorems only: statement + exact + Print Assumptions. *)
 From Coq Require Import List ZArith Bool.
-From LJT Require Import model.Extent model.ExtentApi model.ExtentTmp model.ExtentRows model.ExtentHist model.ExtentLanes model.ExtentShuffle model.Extent565 gen.GenAlign gen.GenTail
+From LJT Require Import model.Extent model.ExtentApi model.ExtentTmp model.ExtentRows model.ExtentHist model.ExtentLanes model.ExtentShuffle model.Extent565 model.ExtentPost gen.GenAlign gen.GenTail
   proofs.ExtentProofs proofs.ExtentYuvProofs proofs.ExtentApiProofs proofs.ExtentTmpProofs proofs.ExtentRowsProofs
-  proofs.ExtentHistProofs proofs.ExtentLanesProofs proofs.ExtentShuffleProofs proofs.Extent565Proofs proofs.ExtentExamples.
+  proofs.ExtentHistProofs proofs.ExtentLanesProofs proofs.ExtentShuffleProofs proofs.Extent565Proofs proofs.ExtentPostProofs proofs.ExtentExamples.
 Import ListNotations.
 Local Open Scope Z_scope.
 
@@ -270,6 +270,46 @@ Theorem C11_lanes_stay_in_padded_rows : forall V n m_in m_out,
    ds_output_written V n <= round_up_nat m_in 64)%nat.
 Proof. exact lanes_stay_in_padded_rows. Qed.
 Print Assumptions C11_lanes_stay_in_padded_rows.
+
+(* post-processing controller (jdpostct.c): rows delivered per jpeg_read_scanlines call *)
+Theorem C11_pp1_within : forall have rtg strip avail ctr, 0 <= have -> 0 <= rtg -> 0 <= strip -> ctr <= avail ->
+  0 <= pp1_num_rows have rtg strip avail ctr <= avail - ctr /\ pp1_num_rows have rtg strip avail ctr <= rtg.
+Proof. exact pp1_within. Qed.
+Print Assumptions C11_pp1_within.
+
+(* second pass of 2-pass quantization with the bottom clamp "output_height - starting_row - next_row": for every
+   strip height, max_lines and image height each call delivers <= max_lines and <= output_height - output_scanline *)
+Theorem C11_pp2_run_within : forall fuel s m H imgH, 1 <= s -> 1 <= m ->
+  forall start next scan, 0 <= next < s -> scan = start + next ->
+  forall sc n, In (sc, n) (pp2_run fuel 1 s m H imgH start next scan) -> 1 <= n <= m /\ n <= H - sc.
+Proof. exact pp2_run_within. Qed.
+Print Assumptions C11_pp2_run_within.
+
+(* pp2_clamp is read from jdpostct.c: 1 = the statement above; 0 (no "- next_row") and 2 (image_height, seeded
+   C11-7) come with their witnesses of a call that delivers a row more than remains *)
+Theorem C11_pp2_current :
+  if pp2_clamp =? 1 then
+    (forall fuel s m H imgH, 1 <= s -> 1 <= m -> forall sc n, In (sc, n) (pp2_run fuel 1 s m H imgH 0 0 0) -> 1 <= n <= m /\ n <= H - sc)
+  else if pp2_clamp =? 0 then exists s m H, 1 <= s /\ 1 <= m /\ In (H - 1, 2) (pp2_run 20 0 s m H H 0 0 0)
+  else exists s m H imgH, 1 <= s /\ 1 <= m /\ H <= imgH /\ In (H - 1, 2) (pp2_run 20 2 s m H imgH 0 0 0).
+Proof. exact pp2_current. Qed.
+Print Assumptions C11_pp2_current.
+
+(* spare row of merged_2v_upsample: copy length = size of an output row for every out_color_space (RGB565: 2
+   bytes per pixel, 3 components), cropped or not, given where the RGB565 special case is (generated flags) *)
+Theorem C11_spare_copy_len_is_row_size : forall copy565 init565 crop565 is565 cropped ow_init ow_now ncomp,
+  (copy565 = true \/ (init565 = true /\ crop565 = true)) -> (cropped = false -> ow_now = ow_init) ->
+  spare_copy_len copy565 init565 crop565 is565 cropped ow_init ow_now ncomp = out_row_size is565 ow_now ncomp.
+Proof. exact spare_copy_len_is_row_size. Qed.
+Print Assumptions C11_spare_copy_len_is_row_size.
+
+Theorem C11_spare_copy_current :
+  if mrg_copy565 || (mrg_init565 && mrg_crop565) then
+    (forall is565 cropped ow_init ow_now ncomp, (cropped = false -> ow_now = ow_init) ->
+       spare_copy_len mrg_copy565 mrg_init565 mrg_crop565 is565 cropped ow_init ow_now ncomp = out_row_size is565 ow_now ncomp)
+  else exists cropped ow, 1 <= ow /\ spare_copy_len mrg_copy565 mrg_init565 mrg_crop565 true cropped ow ow 3 > out_row_size true ow 3.
+Proof. exact spare_copy_current. Qed.
+Print Assumptions C11_spare_copy_current.
 
 (* (5) The property itself is extent_respected applied to the accesses the COMPILED LIBRARY
    performs on caller memory (machine loads and stores).  That function is not an object
